@@ -112,7 +112,88 @@ def gen_dag17(rng: random.Random) -> dict:
     return g
 
 
+def gen_mutex(rng: random.Random) -> dict:
+    """Two producers of ONE signal (and optionally one data name) on the exclusive branches of a gate; a node waits for the signal.
+    Whichever branch runs - chosen by the gate, or entered directly through an entry point - the waiter runs once, after it."""
+    return {"kind": "mutex", "pick": rng.choice(["mA", "mB"]), "entry": rng.choice([None, None, "mA", "mB"]), "data": rng.random() < 0.5, "downstream_gate": rng.random() < 0.4,
+            "order_seed": rng.randrange(1 << 30), "async": [gen.gen_async_cfg(rng)]}
+
+
+def _mutex_spec(doc: dict) -> dict:
+    outs = ["mv"] if doc["data"] else []
+    nodes = [
+        {"kind": "route", "name": "mg", "params": [{"name": "mflag"}], "targets": ["mA", "mB"], "decide": {"op": "const", "value": doc["pick"]}},
+        {"kind": "fn", "name": "mA", "params": [{"name": "mx"}], "outs": outs + ["ra"], "emit": ["msig"]},
+        {"kind": "fn", "name": "mB", "params": [{"name": "mx"}], "outs": outs + ["rb"], "emit": ["msig"]},
+        {"kind": "fn", "name": "mW", "params": [{"name": "mz"}] + ([{"name": "mv"}] if doc["data"] else []), "outs": ["mw"], "wait_for": ["msig"]},
+    ]
+    if doc["downstream_gate"] and doc["data"]:
+        nodes += [{"kind": "route", "name": "mg2", "params": [{"name": "mv"}], "targets": ["mS", "mL"], "decide": {"op": "const", "value": "mS"}},
+                  {"kind": "fn", "name": "mS", "params": [{"name": "mw"}], "outs": ["ms"]}, {"kind": "fn", "name": "mL", "params": [{"name": "mw"}], "outs": ["ml"]}]
+    order = list(range(len(nodes)))
+    random.Random(doc["order_seed"]).shuffle(order)
+    spec = {"name": "top", "nodes": nodes, "order": order}
+    if doc["entry"]:
+        spec["entrypoints"] = [doc["entry"]]
+    return spec
+
+
+def run_mutex(doc: dict) -> dict:
+    res = empty_result()
+    spec = _mutex_spec(doc)
+    ran = doc["entry"] or doc["pick"]
+    vals = {"mx": 3, "mz": 4, "mflag": 1}
+    viol: list = []
+    rts = []
+    try:
+        for i, (mode, cfg) in enumerate([("sync", None)] + [("async", c) for c in doc["async"]]):
+            w = run_world(copy.deepcopy(spec), lambda graph: {k: v for k, v in vals.items() if k in graph.inputs.all}, mode=mode, cfg=cfg)
+            rts.append(w["rt"])
+            res["runs"] += 1
+            out = w["out"]
+            tag = f"{mode}{i}[mutex]"
+            if out["status"] == "raised" and out["error"] and out["error"][0] in ("MissingInputError", "ValueError", "GraphConfigError"):
+                res["discard"] = "rejected_by_validation"
+                res["detail"] = str(out["error"])[:200]
+                return res
+            if out["status"] != "completed":
+                viol.append((f"{tag}:run_not_completed", {"status": out["status"], "error": out["error"]}))
+                continue
+            counts: dict[str, int] = {}
+            for h in enters(w["rt"]):
+                counts[h["n"]] = counts.get(h["n"], 0) + 1
+            other = "mB" if ran == "mA" else "mA"
+            if counts.get(ran, 0) != 1 or counts.get(other, 0):
+                viol.append((f"{tag}:wrong_branch_ran", {"expected": ran, "counts": counts}))
+                continue
+            if counts.get("mW", 0) != 1:
+                viol.append((f"{tag}:waiting_node_never_ran" if not counts.get("mW") else f"{tag}:node_ran_more_than_once", {"node": "mW", "times": counts.get("mW", 0), "producer_that_ran": ran, "entry": doc["entry"], "order": spec["order"]}))
+            if doc["downstream_gate"] and doc["data"]:
+                if counts.get("mg2", 0) != 1 or counts.get("mS", 0) != 1 or counts.get("mL", 0):
+                    viol.append((f"{tag}:gate_below_the_second_producer_did_not_decide", {"counts": counts, "entry": doc["entry"], "order": spec["order"]}))
+            # the waiter starts after the producer completed, never in its step
+            hist = w["rt"].history
+            ex = [j for j, h in enumerate(hist) if h["k"] == "exit" and h["n"] == ran]
+            en = [j for j, h in enumerate(hist) if h["k"] == "enter" and h["n"] == "mW"]
+            if ex and en and en[0] < ex[0]:
+                viol.append((f"{tag}:waiter_started_before_producer_completed", {"producer": ran}))
+    except BuildError as e:
+        res["discard"] = "build_error"
+        res["detail"] = str(e)[:200]
+        return res
+    res["violations"] = viol
+    res["nontrivial"] = True
+    res["stats"]["mutex_producer_cases"] = 1
+    res["shape"] = digest(["mutex", doc["entry"], doc["pick"], doc["data"], doc["downstream_gate"], spec["order"]], 8)
+    res["sched"] = "-"
+    res["sig"] = res["shape"]
+    res["hdigest"] = hist_digest(rts)
+    return res
+
+
 def gen_case(rng: random.Random, tier: str) -> dict:
+    if rng.random() < 0.04:
+        return gen_mutex(rng)
     if rng.random() < 0.3:
         blk = gen.loop_block(rng, "L", signal=rng.random() < 0.7)
         if rng.random() < 0.5:
@@ -235,6 +316,8 @@ def expected_runs(g: dict) -> dict[str, bool]:
 
 
 def run_case(doc: dict) -> dict:
+    if doc["kind"] == "mutex":
+        return run_mutex(doc)
     if doc["kind"] == "loop":
         return _run_loop(doc)
     res = empty_result()
@@ -396,6 +479,11 @@ def _run_loop(doc: dict) -> dict:
 
 
 def shrink_candidates(doc: dict):
+    if doc["kind"] == "mutex":
+        for k, v in (("downstream_gate", False), ("data", False), ("order_seed", 0)):
+            if doc.get(k) != v:
+                yield dict(doc, **{k: v})
+        return
     simple = {"schedule": {"mode": "delay", "seed": 0, "choices": [0], "delays": {}}, "shuffle": None, "max_concurrency": None}
     if doc["kind"] == "loop":
         from checks.c04 import shrink_candidates as sc4
@@ -465,6 +553,8 @@ def signature(doc: dict, cls: str, detail) -> str:
 
 
 def sample_repr(doc: dict, res: dict):
+    if doc["kind"] == "mutex":
+        return {"template": "two producers of one signal on exclusive gate branches, one waiter", **{k: doc[k] for k in ("pick", "entry", "data", "downstream_gate")}}
     if doc["kind"] == "loop":
         from checks.c04 import _p
 
